@@ -178,6 +178,7 @@ func session(args []string) error {
 	queries := [][]int{{0, 0, 3, 3}, {0, 0, 0, 0}, {1, 1, 2, 2}, {3, 0, 3, 3}, {-5, -5, -4, -4}, {2, 2, 2, 2}, {0, 3, 3, 3}}
 	var store []geojson.Object
 	var skipped int
+	diverged := false
 	var behaviours, steps, stateChecks, factChecks, relCalls, searchCalls, mism, reparses, rejected, fixpoints int
 	actions := map[string]int{}
 	kinds := map[string]int{}
@@ -185,6 +186,9 @@ func session(args []string) error {
 	maxDepth := 0
 	bad := func(what string, step int, detail obj) {
 		mism++
+		if mism > 20000 { // counted, not written
+			return
+		}
 		detail["op"] = "session"
 		detail["what"] = what
 		detail["step"] = step
@@ -238,6 +242,16 @@ func session(args []string) error {
 				store[act.i(1)-1] = o
 			case "SetEmpty":
 				store[act.i(1)-1] = placeholderEmpty(act.s(2))
+			case "SetBig":
+				// a catalogue collection of 63..70 children (the child R-tree exists from 64 on): built through the
+				// constructors from the tree the specification gives for it
+				var pair []json.RawMessage
+				json.Unmarshal(exp[act.i(1)-1], &pair)
+				t, err := parseTree(pair[0])
+				if err != nil {
+					panic(err)
+				}
+				store[act.i(1)-1] = t.Build(Identity, &indexConfigs[act.i(2)%3])
 			case "Wrap":
 				store[act.i(1)-1] = geojson.NewFeature(store[act.i(2)-1], sessionMembers[act.i(3)])
 			case "Collect":
@@ -296,7 +310,7 @@ func session(args []string) error {
 				}
 				if err != nil || o == nil {
 					bad("reparse-rejected", n, obj{"text": text, "exp": "accepted", "got": fmt.Sprint(err)})
-					// keep the session going with what the specification says is there
+					diverged = true // the real store no longer follows the specification's: the rest of this session is not stepped
 					return true
 				}
 				var fix bool
@@ -317,6 +331,11 @@ func session(args []string) error {
 		})
 		if out != "ok" {
 			bad("action-panic", n, obj{"got": out, "exp": "the call returns"})
+			store = nil
+			return nil
+		}
+		if diverged {
+			diverged = false
 			store = nil
 			return nil
 		}
@@ -382,11 +401,15 @@ func session(args []string) error {
 		// ---- predicates between every ordered pair of stored objects
 		var rel [][][]int
 		json.Unmarshal(row[4], &rel)
+		gotCode := make([][]int, len(rel))
 		for a := range rel {
+			gotCode[a] = make([]int, len(rel[a]))
 			for b := range rel[a] {
+				gotCode[a][b] = -1
 				if len(rel[a][b]) != 2 || store[a] == nil || store[b] == nil || want[a] == nil || want[b] == nil {
 					continue
 				}
+				gotCode[a][b] = 0
 				l1, l2 := rel[a][b][0], rel[a][b][1]
 				va, vb := store[a], store[b]
 				calls := []struct {
@@ -402,12 +425,39 @@ func session(args []string) error {
 					relCalls++
 					got, out := guarded(c.fn)
 					exp := l1&c.bit != 0
+					if out != "ok" {
+						gotCode[a][b] = -1
+					} else if got && gotCode[a][b] >= 0 {
+						gotCode[a][b] |= c.bit
+					}
 					if out == "ok" && got == exp {
 						continue
 					}
 					mism++
+					if mism > 20000 {
+						continue
+					}
 					ev.Emit(obj{"op": "rel", "session": true, "step": n, "history": append([]string{}, history...), "call": c.name, "A": want[a].tree.JSON(), "B": want[b].tree.JSON(),
 						"got": got, "out": out, "exp": exp, "l2": l2&c.bit != 0, "a": a + 1, "b": b + 1})
+				}
+			}
+		}
+		// ---- the dualities relate the real answers to each other: A.Within(B) = B.Contains(A), A.Intersects(B) = B.Intersects(A)
+		for a := range gotCode {
+			for b := range gotCode[a] {
+				ab, ba := gotCode[a][b], gotCode[b][a]
+				if ab < 0 || ba < 0 {
+					continue
+				}
+				if (ab&4 != 0) != (ba&2 != 0) {
+					mism++
+					ev.Emit(obj{"op": "dual", "session": true, "step": n, "history": append([]string{}, history...), "calls": "A.Within(B) / B.Contains(A)",
+						"A": want[a].tree.JSON(), "B": want[b].tree.JSON(), "r1": fmt.Sprint(ab&4 != 0), "r2": fmt.Sprint(ba&2 != 0)})
+				}
+				if a < b && (ab&1 != 0) != (ba&1 != 0) {
+					mism++
+					ev.Emit(obj{"op": "dual", "session": true, "step": n, "history": append([]string{}, history...), "calls": "A.Intersects(B) / B.Intersects(A)",
+						"A": want[a].tree.JSON(), "B": want[b].tree.JSON(), "r1": fmt.Sprint(ab&1 != 0), "r2": fmt.Sprint(ba&1 != 0)})
 				}
 			}
 		}
